@@ -32,7 +32,8 @@ CONTENT = {
     "c3": "CREATE TABLE \"T\" (\"Id\" int, note varchar(10) COMMENT 'café да') STORED AS PARQUET;\n",
 }
 FILES = [("a.sql", "c1"), ("m.b.c.sql", "c2"), ("noext", "c1"), ("x.ddl", "c4"), ("y.hql", "c3"), ("z.bql", "c1"), ("w.txt", "c2"), ("k.json", "c1"),
-         ("v.1.ddl", "c3"), ("my tables.sql", "c1"), ("a+b(1)@x.ddl", "c5"), ("[q] 'r'.sql", "c2")]
+         ("v.1.ddl", "c3"), ("my tables.sql", "c1"), ("a+b(1)@x.ddl", "c5"), ("[q] 'r'.sql", "c2"),
+         ("a.txt", "c4")]      # same stem as a.sql, not accepted by directory mode: single-file dumps overwrite a_schema.json with a result of another length
 ENCODINGS = {"c5": ["utf-8", "utf-16"], "c4": ["utf-8", "utf-16", "latin-1"], "c1": ["utf-8", "utf-16", "latin-1", "cp1251"], "c2": ["utf-8", "utf-16", "ascii"], "c3": ["utf-8", "utf-16", "utf-8-sig"]}
 
 
